@@ -29,7 +29,7 @@ def anchors():
 
 def cases(seed, tier):
     npoly = 60 if tier == "quick" else 300
-    ntis = 40 if tier == "quick" else 400
+    ntis = 60 if tier == "quick" else 500
     out = [{"fam": "poly", "seed": [seed, 20, i], "count": 60} for i in range(npoly)]
     out += [{"fam": "tissue", "seed": [seed, 20, 10 ** 6 + i]} for i in range(ntis)]
     return out
@@ -236,8 +236,14 @@ def _tissue_case(case, mon):
     from fv import env
     rng = np.random.default_rng(case["seed"])
     n = int(rng.integers(8, 60))
-    at = tissue.voronoi(rng, n=n, kind=["uniform", "hex", "disc"][int(rng.integers(3))])
-    mode = int(rng.integers(3))
+    if rng.random() < 0.3:
+        # square / brick lattices: cells that touch in a single (four-fold) vertex
+        from fv.gen import scen
+        at = scen.base_tissue(rng, ["lat-square", "lat-brick", "lat-square"][int(rng.integers(3))])
+        mode = 0
+    else:
+        at = tissue.voronoi(rng, n=n, kind=["uniform", "hex", "disc"][int(rng.integers(3))])
+        mode = int(rng.integers(3))
     if mode == 1:
         at = tissue.random_mobius(rng, at)
     elif mode == 2:
@@ -249,7 +255,8 @@ def _tissue_case(case, mon):
         at = at.similarity(scale=10 ** rng.uniform(-2, 2), theta=rng.uniform(0, 6.28),
                            shift=complex(*rng.uniform(-1e3, 1e3, 2)))
     with env.Capture():
-        r = realise.realise(at, k=(0, 6), rng=rng, relabel=bool(rng.integers(2)), shifts=True, flips="random")
+        kk = (0, 6) if not at.meta.get("kind", "").startswith("lat-") or rng.random() < 0.3 else 0
+        r = realise.realise(at, k=kk, rng=rng, relabel=bool(rng.integers(2)), shifts=True, flips="random")
     for c in r.cells.values():
         c._fv_registry = r.cells
     cyc_ccw = []
